@@ -76,7 +76,19 @@ def tokenizer_config(index):
     if len(cs) != 1:
         raise AnalysisError("NexusTokenizer.__init__ no longer calls Tokenizer.__init__ exactly once")
     cfgd = {}
+    ki = index.klass(NP + ".NexusTokenizer")
+    consts = {}
+    for st in ki.node.body:
+        if isinstance(st, ast.Assign) and len(st.targets) == 1 and isinstance(st.targets[0], ast.Name):
+            consts["NexusTokenizer." + st.targets[0].id] = st.value
+            consts["self." + st.targets[0].id] = st.value
+    for st in index.modules[NP].tree.body:
+        if isinstance(st, ast.Assign) and len(st.targets) == 1 and isinstance(st.targets[0], ast.Name):
+            consts[st.targets[0].id] = st.value
     for kw in cs[0].keywords:
+        if isinstance(kw.value, (ast.Name, ast.Attribute)) and norm(kw.value) in consts:
+            # a named constant: the configuration is its defining expression
+            kw = ast.keyword(arg=kw.arg, value=consts[norm(kw.value)])
         if kw.arg in ("uncaptured_delimiters", "captured_delimiters", "quote_chars", "comment_begin", "comment_end", "escape_chars"):
             cfgd[kw.arg] = literal_charset(kw.value)
         elif kw.arg in ("escape_quote_by_doubling", "capture_comments"):
